@@ -406,7 +406,7 @@ func c20Grid(t *testing.T) rt.Result {
 func TestC20(t *testing.T) {
 	c := rt.Get()
 	runCase(t, "grid", 0, map[string]any{"space": "3 remote x 3 local x 5 local AS x 5 remote AS x 6 hold x 6 port x passive = 16200 configurations + 8 router ids"}, func(t *testing.T) rt.Result { return c20Grid(t) })
-	n := c.N(6000, 150000)
+	n := c.N(6000, 400000)
 	for i := 0; i < n; i++ {
 		seed := uint64(i)*1181783497276652981 + c.Seed
 		mode := []string{"idle", "serving", "closing"}[i%3]
